@@ -118,13 +118,12 @@ Definition parenthesised (ts : list token) : option (list token * list token) :=
   end.
 
 (* ------------------------------------------------------------------ expressions and names *)
+Definition parse_or_atom (ts : list token) : rexpr :=
+  match pg_parse_expr ts with Some p => p | None => PAtom ts end.
 Definition canon_expr (ts : list token) : cn :=
   match ts with
   | [] => CS "?empty"
-  | _ => match pg_parse_expr ts with
-         | Some p => CS (show (norm p))
-         | None => CS ("?" ++ toks_text ts)
-         end
+  | _ => CS (show (norm (parse_or_atom ts)))
   end.
 
 (* a (possibly qualified) name, nothing else *)
@@ -172,7 +171,10 @@ Definition read_target (ts : list token) : option cn :=
   | None => match ts with [] => None | _ => Some (CN "t" [canon_expr ts; CS ""]) end
   end.
 Definition read_targets (ts : list token) : option (list cn) :=
-  opt_bind (commas ts) (fun l => all_some (map read_target l)).
+  match ts with
+  | [] => Some []                                  (* opt_target_list *)
+  | _ => opt_bind (commas ts) (fun l => all_some (map read_target l))
+  end.
 
 Definition read_exprs (ts : list token) : option (list cn) :=
   opt_bind (commas ts) (fun l => if existsb (fun x => match x with [] => true | _ => false end) l then None
@@ -183,7 +185,7 @@ Definition read_exprs (ts : list token) : option (list cn) :=
 Definition lateral_ok (ts : list token) : bool :=
   match ts with
   | t :: r => is_sym t "(" ||
-              match starts_kws ["ROWS"; "FROM"] ts with Some _ => true | None => false end ||
+              is_kw t "ROWS FROM" ||
               (match t with TWord _ _ | TQIdent _ => true | _ => false end &&
                (fix call (r : list token) : bool :=
                   match r with
@@ -298,7 +300,10 @@ Definition read_set_or_expr (ts : list token) : option cn :=
       (* ( ) or ( a, b ): a grouping set; ( a ) alone is just a parenthesised expression *)
       match inner with
       | [] => Some (CN "set" [])
-      | _ => match commas inner with
+      | t0 :: _ =>
+          if is_kw t0 "SELECT" || is_kw t0 "WITH" || is_kw t0 "VALUES" then Some (canon_expr ts)   (* a sub-select *)
+          else
+          match commas inner with
              | Some [_] => Some (canon_expr ts)
              | Some l => option_map (CN "set") (read_exprs inner)
              | None => None
@@ -430,11 +435,8 @@ Definition read_branch (ts : list token) : option (cn * list cn) :=
                         opt_slot sg "OFFSET" (one canon_expr),
                         opt_slot sg "FOR" (fun x => option_map (fun g => [g]) (read_lock x)) with
                   | Some tl, Some f, Some w, Some g, Some h, Some o, Some l, Some off, Some lk =>
-                      match tl with
-                      | [] => None
-                      | _ => Some (CN "core" [CN "distinct" [CS (if dist then "T" else "F")]; CN "on" on_l; CN "targets" tl; f; w; g; h],
-                                   [o; l; off; lk])
-                      end
+                      Some (CN "core" [CN "distinct" [CS (if dist then "T" else "F")]; CN "on" on_l; CN "targets" tl; f; w; g; h],
+                            [o; l; off; lk])
                   | _, _, _, _, _, _, _, _, _ => None
                   end
               end
@@ -702,4 +704,18 @@ with read_main (fuel : nat) (ts : list token) {struct fuel} : option cn :=
       end
   end.
 
-Definition pg_read_stmt (ts : list token) : option cn := read_stmt 12 ts.
+(* ROWS FROM ( ... ) is one construct: its FROM is not a clause keyword *)
+Fixpoint merge_rows_from (ts : list token) : list token :=
+  match ts with
+  | (TWord a ua as t) :: r =>
+      match r with
+      | TWord b _ :: r' => if String.eqb (upper a) "ROWS" && String.eqb (upper b) "FROM"
+                           then TWord (a ++ " " ++ b) ua :: merge_rows_from r'
+                           else t :: merge_rows_from r
+      | _ => t :: merge_rows_from r
+      end
+  | t :: r => t :: merge_rows_from r
+  | [] => []
+  end.
+
+Definition pg_read_stmt (ts : list token) : option cn := read_stmt 64 (merge_rows_from ts).
